@@ -516,11 +516,17 @@ impl<'de> de::VariantAccess<'de> for VariantAccess<'de> {
         seed.deserialize(&mut Deserializer::from_value(self.cell.cdr()))
     }
 
-    fn tuple_variant<V>(self, _len: usize, visitor: V) -> Result<V::Value>
+    fn tuple_variant<V>(self, len: usize, visitor: V) -> Result<V::Value>
     where
         V: de::Visitor<'de>,
     {
-        de::Deserializer::deserialize_seq(&mut Deserializer::from_value(self.cell.cdr()), visitor)
+        // The items of a tuple variant are a tuple: an improper list is
+        // rejected even if its tail lies beyond the last item.
+        de::Deserializer::deserialize_tuple(
+            &mut Deserializer::from_value(self.cell.cdr()),
+            len,
+            visitor,
+        )
     }
 
     fn struct_variant<V>(self, fields: &'static [&'static str], visitor: V) -> Result<V::Value>
